@@ -524,8 +524,10 @@ m('redo-activetxn-only-at-begin', ['C02'], LR, """			logRecov.activeTxn[logRecor
 m('changed-index-header-id-not-stored', ['C07', 'C09'], CAT, """				columnsCatalogHeap.UpdateTuple(tuple.NewTupleFromSchema(row, ColumnsCatalogSchema()), nil, nil, ColumnsCatalogOID, *columnRows[ii].GetRID(), txn, false)
 """, """				_ = row
 """, ['C07-R6 [RecoveryCatalogFromCatalogPage:changed-header-id-is-stored]'])
-m('hash-index-update-entry-unimplemented', ['C17', 'C07'], 'lib/storage/index/linear_probe_hash_table_index.go', """	htidx.DeleteEntry(oldKey, oldRID, transaction)
-	htidx.InsertEntry(newKey, newRID, transaction)
+m('hash-index-update-entry-unimplemented', ['C17', 'C07'], 'lib/storage/index/linear_probe_hash_table_index.go', """	htidx.updateMtx.Lock()
+	defer htidx.updateMtx.Unlock()
+	htidx.deleteEntryInner(oldKey, oldRID, transaction, true)
+	htidx.insertEntryInner(newKey, newRID, transaction, true)
 """, """	panic("not implemented yet")
 """, ['C17-R1 [LinearProbeHashTableIndex.UpdateEntry:implemented]'])
 m('flushpage-without-page-latch', ['C19'], BPM, """		pg.RLatch()
@@ -677,10 +679,10 @@ m('unpin-sets-dirty-after-unlock', ['C13', 'C19'], BPM, """		if pg.IsDirty() || 
 		b.mutex.Unlock()
 		pg.SetIsDirty(dirtyNow)
 """, ['C13-R1 [BPM.UnpinPage:metadata-under-mutex]'])
-m('hash-update-inserts-before-delete', ['C07', 'C17'], 'lib/storage/index/linear_probe_hash_table_index.go', """	htidx.DeleteEntry(oldKey, oldRID, transaction)
-	htidx.InsertEntry(newKey, newRID, transaction)
-}""", """	htidx.InsertEntry(newKey, newRID, transaction)
-	htidx.DeleteEntry(oldKey, oldRID, transaction)
+m('hash-update-inserts-before-delete', ['C07', 'C17'], 'lib/storage/index/linear_probe_hash_table_index.go', """	htidx.deleteEntryInner(oldKey, oldRID, transaction, true)
+	htidx.insertEntryInner(newKey, newRID, transaction, true)
+}""", """	htidx.insertEntryInner(newKey, newRID, transaction, true)
+	htidx.deleteEntryInner(oldKey, oldRID, transaction, true)
 }""", ['C17-R1 [LinearProbeHashTableIndex.UpdateEntry:delete-before-insert]'])
 m('skiplist-update-inserts-before-delete', ['C07', 'C17'], 'lib/storage/index/skip_list_index.go', """	slidx.deleteEntryInner(oldKey, oldRID, txn, true)
 	slidx.insertEntryInner(newKey, newRID, txn, true)""", """	slidx.insertEntryInner(newKey, newRID, txn, true)
@@ -706,6 +708,20 @@ m('update-space-check-on-value-list', ['C15'], TP, """	if tp.getFreeSpaceRemaini
 m('insert-space-check-ignores-row-size', ['C15'], TP, """	if tp.getFreeSpaceRemaining() < tuple.Size()+sizeTuple {
 		return nil, ErrNotEnoughSpace""", """	if tp.getFreeSpaceRemaining() < sizeTuple {
 		return nil, ErrNotEnoughSpace""", ['C15-R8 [InsertTuple:space-check-measures-written-tuple#1]'])
+m('hash-update-entry-two-steps', ['C04', 'C17', 'C07'], 'lib/storage/index/linear_probe_hash_table_index.go', """	htidx.updateMtx.Lock()
+	defer htidx.updateMtx.Unlock()
+	htidx.deleteEntryInner(oldKey, oldRID, transaction, true)
+	htidx.insertEntryInner(newKey, newRID, transaction, true)""", """	htidx.deleteEntryInner(oldKey, oldRID, transaction, false)
+	htidx.insertEntryInner(newKey, newRID, transaction, false)""", ['C17-R2 [LinearProbeHashTableIndex.UpdateEntry:container-under-updateMtx]'])
+m('skiplist-update-entry-reader-gap', ['C04', 'C17'], 'lib/storage/index/skip_list_index.go', """	slidx.updateMtx.Lock()
+	defer slidx.updateMtx.Unlock()
+	slidx.deleteEntryInner(oldKey, oldRID, txn, true)
+	slidx.insertEntryInner(newKey, newRID, txn, true)""", """	slidx.updateMtx.Lock()
+	slidx.deleteEntryInner(oldKey, oldRID, txn, true)
+	slidx.updateMtx.Unlock()
+	slidx.updateMtx.Lock()
+	slidx.insertEntryInner(newKey, newRID, txn, true)
+	slidx.updateMtx.Unlock()""", ['C17-R2 [SkipListIndex.UpdateEntry:container-under-updateMtx]'])
 # drop the one that needs a helper that does not exist
 M = [x for x in M if x['id'] != 'insert-executor-unlocks-early']
 os.chdir(os.path.dirname(os.path.abspath(__file__)) + '/..')
